@@ -15,7 +15,7 @@ RULE = ("worlds biased to interesting incidence structures: paired/gapped reads 
         "code reports as used (H1 hook); non-trivial = at least two phase sets in one sample/chromosome, or a pedigree run")
 ASSUMPTIONS = [
     "connectivity is judged on the reads whatshap itself reports as selected (H1), not on what the harness intended",
-    "runs with --distrust-genotypes are not judged (heterozygosity changes during phasing)",
+    "with --distrust-genotypes heterozygosity and the master block are taken from the run's own result (super-reads recorded by H1)",
 ]
 
 
@@ -41,6 +41,18 @@ def scenarios(ctx):
                               read_none_prob=rng.choice([0.0, 0.4]))
             o = {"tag": rng.choice(["PS", "HP"]), "ped": True, "genetic_haplotyping": rng.random() < 0.7,
                  "max_coverage": rng.choice([15, 6, 4])}
+        if rng.random() < 0.25:
+            # --distrust-genotypes: weak likelihoods and some deliberately wrong genotypes so that hom/het status changes
+            o["distrust"] = True
+            w["pl_weak"] = True
+            w["errfree"] = False
+            vg = {s: [[f"{min(x)}/{max(x)}" for x in w["truth"][s][ci]] for ci in range(len(w["chroms"]))] for s in w["samples"]}
+            for s in w["samples"]:
+                for ci in range(len(w["chroms"])):
+                    for si in range(len(vg[s][ci])):
+                        if rng.random() < 0.3:
+                            vg[s][ci][si] = rng.choice(["0/1", "0/1", "0/0", "1/1"])
+            w["vcf_gt"] = vg
         w["opts"] = o
         scs.append({"world": w})
     return scs
